@@ -256,8 +256,8 @@ static PyObject* swap(PyObject *self, PyObject *args, PyObject *kwrds)
     }
     if (n == 0) return Py_BuildValue("");
 
-    if (len(x) < ox+1+(n-1)*abs(ix)) err_buf_len("x");
-    if (len(y) < oy+1+(n-1)*abs(iy)) err_buf_len("y");
+    if (len(x) < (int_t)ox+1+(n-1)*labs((long)ix)) err_buf_len("x");
+    if (len(y) < (int_t)oy+1+(n-1)*labs((long)iy)) err_buf_len("y");
 
     switch (MAT_ID(x)){
         case DOUBLE:
@@ -309,7 +309,7 @@ static PyObject* scal(PyObject *self, PyObject *args, PyObject *kwrds)
     if (ox < 0) err_nn_int("offset");
     if (n < 0) n = (len(x) >= ox+1) ? 1+(len(x)-ox-1)/ix : 0;
     if (n == 0) return Py_BuildValue("");
-    if (len(x) < ox+1+(n-1)*ix) err_buf_len("x");
+    if (len(x) < (int_t)ox+1+(n-1)*(int_t)ix) err_buf_len("x");
 
     switch (MAT_ID(x)){
         case DOUBLE:
@@ -379,8 +379,8 @@ static PyObject* copy(PyObject *self, PyObject *args, PyObject *kwrds)
     if (n < 0) n = (len(x) >= ox+1) ? 1+(len(x)-ox-1)/abs(ix) : 0;
     if (n == 0) return Py_BuildValue("");
 
-    if (len(x) < ox+1+(n-1)*abs(ix)) err_buf_len("x");
-    if (len(y) < oy+1+(n-1)*abs(iy)) err_buf_len("y");
+    if (len(x) < (int_t)ox+1+(n-1)*labs((long)ix)) err_buf_len("x");
+    if (len(y) < (int_t)oy+1+(n-1)*labs((long)iy)) err_buf_len("y");
 
     switch (MAT_ID(x)){
         case DOUBLE:
@@ -445,8 +445,8 @@ static PyObject* axpy(PyObject *self, PyObject *args, PyObject *kwrds)
     if (n < 0) n = (len(x) >= ox+1) ? 1+(len(x)-ox-1)/abs(ix) : 0;
     if (n == 0) return Py_BuildValue("");
 
-    if (len(x) < ox + 1+(n-1)*abs(ix)) err_buf_len("x");
-    if (len(y) < oy + 1+(n-1)*abs(iy)) err_buf_len("y");
+    if (len(x) < (int_t)ox+1+(n-1)*labs((long)ix)) err_buf_len("x");
+    if (len(y) < (int_t)oy+1+(n-1)*labs((long)iy)) err_buf_len("y");
 
     if (ao && number_from_pyobject(ao, &a, MAT_ID(x)))
         err_type("alpha");
@@ -526,8 +526,8 @@ static PyObject* dot(PyObject *self, PyObject *args, PyObject *kwrds)
         }
     }
 
-    if (n && len(x) < ox + 1 + (n-1)*abs(ix)) err_buf_len("x");
-    if (n && len(y) < oy + 1 + (n-1)*abs(iy)) err_buf_len("y");
+    if (n && len(x) < (int_t)ox+1+(n-1)*labs((long)ix)) err_buf_len("x");
+    if (n && len(y) < (int_t)oy+1+(n-1)*labs((long)iy)) err_buf_len("y");
 
     switch (MAT_ID(x)){
         case DOUBLE:
@@ -628,8 +628,8 @@ static PyObject* dotu(PyObject *self, PyObject *args, PyObject *kwrds)
         }
     }
 
-    if (n && len(x) < ox + 1 + (n-1)*abs(ix)) err_buf_len("x");
-    if (n && len(y) < oy + 1 + (n-1)*abs(iy)) err_buf_len("y");
+    if (n && len(x) < (int_t)ox+1+(n-1)*labs((long)ix)) err_buf_len("x");
+    if (n && len(y) < (int_t)oy+1+(n-1)*labs((long)iy)) err_buf_len("y");
 
     switch (MAT_ID(x)){
         case DOUBLE:
@@ -710,7 +710,7 @@ static PyObject* nrm2(PyObject *self, PyObject *args, PyObject *kwrds)
     if (ox < 0) err_nn_int("offsetx");
     if (n < 0) n = (len(x) >= ox+1) ? 1+(len(x)-ox-1)/ix : 0;
     if (n == 0) return Py_BuildValue("d", 0.0);
-    if (len(x) < ox + 1+(n-1)*ix) err_buf_len("x");
+    if (len(x) < (int_t)ox+1+(n-1)*(int_t)ix) err_buf_len("x");
 
     switch (MAT_ID(x)){
         case DOUBLE:
@@ -753,7 +753,7 @@ static PyObject* asum(PyObject *self, PyObject *args, PyObject *kwrds)
     if (ox < 0) err_nn_int("offset");
     if (n < 0) n = (len(x) >= ox+1) ? 1+(len(x)-ox-1)/ix : 0;
     if (n == 0) return Py_BuildValue("d", 0.0);
-    if (len(x) < ox + 1+(n-1)*ix) err_buf_len("x");
+    if (len(x) < (int_t)ox+1+(n-1)*(int_t)ix) err_buf_len("x");
 
     double val;
     switch (MAT_ID(x)){
@@ -804,7 +804,7 @@ static PyObject* iamax(PyObject *self, PyObject *args, PyObject *kwrds)
     if (ox < 0) err_nn_int("offset");
     if (n < 0) n = (len(x) >= ox+1) ? 1+(len(x)-ox-1)/ix : 0;
     if (n == 0) return Py_BuildValue("i", 0);
-    if (len(x) < ox + 1+(n-1)*ix) err_buf_len("x");
+    if (len(x) < (int_t)ox+1+(n-1)*(int_t)ix) err_buf_len("x");
 
 #if PY_MAJOR_VERSION >= 3
     int val;
@@ -916,17 +916,15 @@ static PyObject* gemv(PyObject *self, PyObject *args, PyObject *kwrds)
     if (ldA < MAX(1,m)) err_ld("ldA");
 
     if (oA < 0) err_nn_int("offsetA");
-    if (n > 0 && m > 0 && oA + (n-1)*ldA + m > len(A)) err_buf_len("A");
+    if (n > 0 && m > 0 && (int_t)oA + (n-1)*(int_t)ldA + m > len(A)) err_buf_len("A");
 
     if (ox < 0) err_nn_int("offsetx");
-    if ((trans == 'N' && n > 0 && ox + (n-1)*abs(ix) + 1 > len(x)) ||
-	((trans == 'T' || trans == 'C') && m > 0 &&
-        ox + (m-1)*abs(ix) + 1 > len(x))) err_buf_len("x");
+    if ((trans == 'N' && n > 0 && (int_t)ox + (n-1)*labs((long)ix) + 1 > len(x)) ||
+	((trans == 'T' || trans == 'C') && m > 0 && (int_t)ox + (m-1)*labs((long)ix) + 1 > len(x))) err_buf_len("x");
 
     if (oy < 0) err_nn_int("offsety");
-    if ((trans == 'N' && oy + (m-1)*abs(iy) + 1 > len(y)) ||
-        ((trans == 'T' || trans == 'C') &&
-        oy + (n-1)*abs(iy) + 1 > len(y))) err_buf_len("y");
+    if ((trans == 'N' && (int_t)oy + (m-1)*labs((long)iy) + 1 > len(y)) ||
+        ((trans == 'T' || trans == 'C') && (int_t)oy + (n-1)*labs((long)iy) + 1 > len(y))) err_buf_len("y");
 
     if (ao && number_from_pyobject(ao, &a, MAT_ID(x)))
         err_type("alpha");
@@ -1075,16 +1073,14 @@ static PyObject* gbmv(PyObject *self, PyObject *args, PyObject *kwrds)
     if (ldA < kl+ku+1) err_ld("ldA");
 
     if (oA < 0) err_nn_int("offsetA");
-    if (m>0 && n>0 && oA + (n-1)*ldA + kl + ku + 1 > len(A))
+    if (m>0 && n>0 && (int_t)oA + (n-1)*(int_t)ldA + kl + ku + 1 > len(A))
         err_buf_len("A");
     if (ox < 0) err_nn_int("offsetx");
-    if ((trans == 'N' && n > 0 && ox + (n-1)*abs(ix) + 1 > len(x)) ||
-        ((trans == 'T' || trans == 'C') && m > 0 &&
-        ox + (m-1)*abs(ix) + 1 > len(x))) err_buf_len("x");
+    if ((trans == 'N' && n > 0 && (int_t)ox + (n-1)*labs((long)ix) + 1 > len(x)) ||
+        ((trans == 'T' || trans == 'C') && m > 0 && (int_t)ox + (m-1)*labs((long)ix) + 1 > len(x))) err_buf_len("x");
     if (oy < 0) err_nn_int("offsety");
-    if ((trans == 'N' && oy + (m-1)*abs(iy) + 1 > len(y)) ||
-	((trans == 'T' || trans == 'C') &&
-        oy + (n-1)*abs(iy) + 1 > len(y))) err_buf_len("y");
+    if ((trans == 'N' && (int_t)oy + (m-1)*labs((long)iy) + 1 > len(y)) ||
+	((trans == 'T' || trans == 'C') && (int_t)oy + (n-1)*labs((long)iy) + 1 > len(y))) err_buf_len("y");
 
     if (ao && number_from_pyobject(ao, &a, MAT_ID(x)))
         err_type("alpha");
@@ -1219,11 +1215,11 @@ static PyObject* symv(PyObject *self, PyObject *args, PyObject *kwrds)
     if (ldA == 0) ldA = MAX(1,A->nrows);
     if (ldA < MAX(1,n)) err_ld("ldA");
     if (oA < 0) err_nn_int("offsetA");
-    if (oA + (n-1)*ldA + n > len(A)) err_buf_len("A");
+    if ((int_t)oA + (n-1)*(int_t)ldA + n > len(A)) err_buf_len("A");
     if (ox < 0) err_nn_int("offsetx");
-    if (ox + (n-1)*abs(ix) + 1 > len(x)) err_buf_len("x");
+    if ((int_t)ox + (n-1)*labs((long)ix) + 1 > len(x)) err_buf_len("x");
     if (oy < 0) err_nn_int("offsety");
-    if (oy + (n-1)*abs(iy) + 1 > len(y)) err_buf_len("y");
+    if ((int_t)oy + (n-1)*labs((long)iy) + 1 > len(y)) err_buf_len("y");
 
     if (ao && number_from_pyobject(ao, &a, MAT_ID(x)))
         err_type("alpha");
@@ -1328,11 +1324,11 @@ static PyObject* hemv(PyObject *self, PyObject *args, PyObject *kwrds)
     if (ldA == 0) ldA = MAX(1,A->nrows);
     if (ldA < MAX(1,n)) err_ld("ldA");
     if (oA < 0) err_nn_int("offsetA");
-    if (oA + (n-1)*ldA + n > len(A)) err_buf_len("A");
+    if ((int_t)oA + (n-1)*(int_t)ldA + n > len(A)) err_buf_len("A");
     if (ox < 0) err_nn_int("offsetx");
-    if (ox + (n-1)*abs(ix) + 1 > len(x)) err_buf_len("x");
+    if ((int_t)ox + (n-1)*labs((long)ix) + 1 > len(x)) err_buf_len("x");
     if (oy < 0) err_nn_int("offsety");
-    if (oy + (n-1)*abs(iy) + 1 > len(y)) err_buf_len("y");
+    if ((int_t)oy + (n-1)*labs((long)iy) + 1 > len(y)) err_buf_len("y");
 
     if (ao && number_from_pyobject(ao, &a, MAT_ID(x)))
         err_type("alpha");
@@ -1442,11 +1438,11 @@ static PyObject* sbmv(PyObject *self, PyObject *args, PyObject *kwrds)
     if (ldA < 1+k) err_ld("ldA");
 
     if (oA < 0) err_nn_int("offsetA");
-    if (oA + (n-1)*ldA + k+1 > len(A)) err_buf_len("A");
+    if ((int_t)oA + (n-1)*(int_t)ldA + k+1 > len(A)) err_buf_len("A");
     if (ox < 0) err_nn_int("offsetx");
-    if (ox + (n-1)*abs(ix) + 1 > len(x)) err_buf_len("x");
+    if ((int_t)ox + (n-1)*labs((long)ix) + 1 > len(x)) err_buf_len("x");
     if (oy < 0) err_nn_int("offsety");
-    if (oy + (n-1)*abs(iy) + 1 > len(y)) err_buf_len("y");
+    if ((int_t)oy + (n-1)*labs((long)iy) + 1 > len(y)) err_buf_len("y");
 
     if (ao && number_from_pyobject(ao, &a, MAT_ID(x)))
         err_type("alpha");
@@ -1545,11 +1541,11 @@ static PyObject* hbmv(PyObject *self, PyObject *args, PyObject *kwrds)
     if (ldA < 1+k) err_ld("ldA");
 
     if (oA < 0) err_nn_int("offsetA");
-    if (oA + (n-1)*ldA + k+1 > len(A)) err_buf_len("A");
+    if ((int_t)oA + (n-1)*(int_t)ldA + k+1 > len(A)) err_buf_len("A");
     if (ox < 0) err_nn_int("offsetx");
-    if (ox + (n-1)*abs(ix) + 1 > len(x)) err_buf_len("x");
+    if ((int_t)ox + (n-1)*labs((long)ix) + 1 > len(x)) err_buf_len("x");
     if (oy < 0) err_nn_int("offsety");
-    if (oy + (n-1)*abs(iy) + 1 > len(y)) err_buf_len("y");
+    if ((int_t)oy + (n-1)*labs((long)iy) + 1 > len(y)) err_buf_len("y");
 
     if (ao && number_from_pyobject(ao, &a, MAT_ID(x)))
         err_type("alpha");
@@ -1659,9 +1655,9 @@ static PyObject* trmv(PyObject *self, PyObject *args, PyObject *kwrds)
     if (ldA == 0) ldA = MAX(1,A->nrows);
     if (ldA < MAX(1,n)) err_ld("ldA");
     if (oA < 0) err_nn_int("offsetA");
-    if (oA + (n-1)*ldA + n > len(A)) err_buf_len("A");
+    if ((int_t)oA + (n-1)*(int_t)ldA + n > len(A)) err_buf_len("A");
     if (ox < 0) err_nn_int("offsetx");
-    if (ox + (n-1)*abs(ix) + 1 > len(x)) err_buf_len("offsetx");
+    if ((int_t)ox + (n-1)*labs((long)ix) + 1 > len(x)) err_buf_len("offsetx");
 
     switch (MAT_ID(x)){
         case DOUBLE:
@@ -1757,9 +1753,9 @@ static PyObject* tbmv(PyObject *self, PyObject *args, PyObject *kwrds)
     if (ldA < k+1)  err_ld("ldA");
 
     if (oA < 0) err_nn_int("offsetA");
-    if (oA + (n-1)*ldA + k + 1 > len(A)) err_buf_len("A");
+    if ((int_t)oA + (n-1)*(int_t)ldA + k + 1 > len(A)) err_buf_len("A");
     if (ox < 0) err_nn_int("offsetx");
-    if (ox + (n-1)*abs(ix) + 1 > len(x)) err_buf_len("x");
+    if ((int_t)ox + (n-1)*labs((long)ix) + 1 > len(x)) err_buf_len("x");
 
     switch (MAT_ID(x)){
         case DOUBLE:
@@ -1858,9 +1854,9 @@ static PyObject* trsv(PyObject *self, PyObject *args, PyObject *kwrds)
     if (ldA < MAX(1,n)) err_ld("ldA");
 
     if (oA < 0) err_nn_int("offsetA");
-    if (oA + (n-1)*ldA + n > len(A)) err_buf_len("A");
+    if ((int_t)oA + (n-1)*(int_t)ldA + n > len(A)) err_buf_len("A");
     if (ox < 0) err_nn_int("offsetx");
-    if (ox + (n-1)*abs(ix) + 1 > len(x)) err_buf_len("x");
+    if ((int_t)ox + (n-1)*labs((long)ix) + 1 > len(x)) err_buf_len("x");
 
     switch (MAT_ID(x)){
         case DOUBLE:
@@ -1956,9 +1952,9 @@ static PyObject* tbsv(PyObject *self, PyObject *args, PyObject *kwrds)
     if (ldA < k+1) err_ld("ldA");
 
     if (oA < 0) err_nn_int("offsetA");
-    if (oA + (n-1)*ldA + k + 1 > len(A)) err_buf_len("A");
+    if ((int_t)oA + (n-1)*(int_t)ldA + k + 1 > len(A)) err_buf_len("A");
     if (ox < 0) err_nn_int("offsetx");
-    if (ox + (n-1)*abs(ix) + 1 > len(x)) err_buf_len("x");
+    if ((int_t)ox + (n-1)*labs((long)ix) + 1 > len(x)) err_buf_len("x");
 
     switch (MAT_ID(x)){
         case DOUBLE:
@@ -2036,11 +2032,11 @@ static PyObject* ger(PyObject *self, PyObject *args, PyObject *kwrds)
     if (ldA < MAX(1,m)) err_ld("ldA");
 
     if (oA < 0) err_nn_int("offsetA");
-    if (oA + (n-1)*ldA + m > len(A)) err_buf_len("A");
+    if ((int_t)oA + (n-1)*(int_t)ldA + m > len(A)) err_buf_len("A");
     if (ox < 0) err_nn_int("offsetx");
-    if (ox + (m-1)*abs(ix) + 1 > len(x)) err_buf_len("x");
+    if ((int_t)ox + (m-1)*labs((long)ix) + 1 > len(x)) err_buf_len("x");
     if (oy < 0) err_nn_int("offsety");
-    if (oy + (n-1)*abs(iy) + 1 > len(y)) err_buf_len("y");
+    if ((int_t)oy + (n-1)*labs((long)iy) + 1 > len(y)) err_buf_len("y");
 
     if (ao && number_from_pyobject(ao, &a, MAT_ID(x)))
         err_type("alpha");
@@ -2127,11 +2123,11 @@ static PyObject* geru(PyObject *self, PyObject *args, PyObject *kwrds)
     if (ldA < MAX(1,m)) err_ld("ldA");
 
     if (oA < 0) err_nn_int("offsetA");
-    if (oA + (n-1)*ldA + m > len(A)) err_buf_len("A");
+    if ((int_t)oA + (n-1)*(int_t)ldA + m > len(A)) err_buf_len("A");
     if (ox < 0) err_nn_int("offsetx");
-    if (ox + (m-1)*abs(ix) + 1 > len(x)) err_buf_len("x");
+    if ((int_t)ox + (m-1)*labs((long)ix) + 1 > len(x)) err_buf_len("x");
     if (oy < 0) err_nn_int("offsety");
-    if (oy + (n-1)*abs(iy) + 1 > len(y)) err_buf_len("y");
+    if ((int_t)oy + (n-1)*labs((long)iy) + 1 > len(y)) err_buf_len("y");
 
     if (ao && number_from_pyobject(ao, &a, MAT_ID(x)))
         err_type("alpha");
@@ -2228,9 +2224,9 @@ static PyObject* syr(PyObject *self, PyObject *args, PyObject *kwrds)
     if (ldA < MAX(1,n)) err_ld("ldA");
 
     if (oA < 0) err_nn_int("offsetA");
-    if (oA + (n-1)*ldA + n > len(A)) err_buf_len("A");
+    if ((int_t)oA + (n-1)*(int_t)ldA + n > len(A)) err_buf_len("A");
     if (ox < 0) err_nn_int("offsetx");
-    if (ox + (n-1)*abs(ix) + 1 > len(x)) err_buf_len("x");
+    if ((int_t)ox + (n-1)*labs((long)ix) + 1 > len(x)) err_buf_len("x");
 
     if (uplo != 'L' && uplo != 'U') err_char("uplo", "'L', 'U'");
 
@@ -2316,9 +2312,9 @@ static PyObject* her(PyObject *self, PyObject *args, PyObject *kwrds)
     if (ldA < MAX(1,n)) err_ld("ldA");
 
     if (oA < 0) err_nn_int("offsetA");
-    if (oA + (n-1)*ldA + n > len(A)) err_buf_len("A");
+    if ((int_t)oA + (n-1)*(int_t)ldA + n > len(A)) err_buf_len("A");
     if (ox < 0) err_nn_int("offsetx");
-    if (ox + (n-1)*abs(ix) + 1 > len(x)) err_buf_len("x");
+    if ((int_t)ox + (n-1)*labs((long)ix) + 1 > len(x)) err_buf_len("x");
 
     if (uplo != 'L' && uplo != 'U') err_char("uplo", "'L', 'U'");
 
@@ -2417,11 +2413,11 @@ static PyObject* syr2(PyObject *self, PyObject *args, PyObject *kwrds)
     if (ldA == 0) ldA = MAX(1,A->nrows);
     if (ldA < MAX(1,n)) err_ld("ldA");
     if (oA < 0) err_nn_int("offsetA");
-    if (oA + (n-1)*ldA + n > len(A)) err_buf_len("A");
+    if ((int_t)oA + (n-1)*(int_t)ldA + n > len(A)) err_buf_len("A");
     if (ox < 0) err_nn_int("offsetx");
-    if (ox + (n-1)*abs(ix) + 1 > len(x)) err_buf_len("x");
+    if ((int_t)ox + (n-1)*labs((long)ix) + 1 > len(x)) err_buf_len("x");
     if (oy < 0) err_nn_int("offsety");
-    if (oy + (n-1)*abs(iy) + 1 > len(y)) err_buf_len("y");
+    if ((int_t)oy + (n-1)*labs((long)iy) + 1 > len(y)) err_buf_len("y");
 
     if (uplo != 'L' && uplo != 'U') err_char("uplo", "'L','U'");
 
@@ -2515,11 +2511,11 @@ static PyObject* her2(PyObject *self, PyObject *args, PyObject *kwrds)
     if (ldA == 0) ldA = MAX(1,A->nrows);
     if (ldA < MAX(1,n)) err_ld("ldA");
     if (oA < 0) err_nn_int("offsetA");
-    if (oA + (n-1)*ldA + n > len(A)) err_buf_len("A");
+    if ((int_t)oA + (n-1)*(int_t)ldA + n > len(A)) err_buf_len("A");
     if (ox < 0) err_nn_int("offsetx");
-    if (ox + (n-1)*abs(ix) + 1 > len(x)) err_buf_len("x");
+    if ((int_t)ox + (n-1)*labs((long)ix) + 1 > len(x)) err_buf_len("x");
     if (oy < 0) err_nn_int("offsety");
-    if (oy + (n-1)*abs(iy) + 1 > len(y)) err_buf_len("y");
+    if ((int_t)oy + (n-1)*labs((long)iy) + 1 > len(y)) err_buf_len("y");
 
     if (uplo != 'L' && uplo != 'U') err_char("uplo", "'L','U'");
 
@@ -2668,15 +2664,13 @@ static PyObject* gemm(PyObject *self, PyObject *args, PyObject *kwrds)
     if (ldC < MAX(1,m)) err_ld("ldB");
 
     if (oA < 0) err_nn_int("offsetA");
-    if (k > 0 && ((transA == 'N' && oA + (k-1)*ldA + m > len(A)) ||
-        ((transA == 'T' || transA == 'C') &&
-        oA + (m-1)*ldA + k > len(A)))) err_buf_len("A");
+    if (k > 0 && ((transA == 'N' && (int_t)oA + (k-1)*(int_t)ldA + m > len(A)) ||
+        ((transA == 'T' || transA == 'C') && (int_t)oA + (m-1)*(int_t)ldA + k > len(A)))) err_buf_len("A");
     if (oB < 0) err_nn_int("offsetB");
-    if (k > 0 && ((transB == 'N' && oB + (n-1)*ldB + k > len(B)) ||
-        ((transB == 'T' || transB == 'C') &&
-        oB + (k-1)*ldB + n > len(B)))) err_buf_len("B");
+    if (k > 0 && ((transB == 'N' && (int_t)oB + (n-1)*(int_t)ldB + k > len(B)) ||
+        ((transB == 'T' || transB == 'C') && (int_t)oB + (k-1)*(int_t)ldB + n > len(B)))) err_buf_len("B");
     if (oC < 0) err_nn_int("offsetC");
-    if (oC + (n-1)*ldC + m > len(C)) err_buf_len("C");
+    if ((int_t)oC + (n-1)*(int_t)ldC + m > len(C)) err_buf_len("C");
 
     if (ao && number_from_pyobject(ao, &a, MAT_ID(A)))
         err_type("alpha");
@@ -2820,12 +2814,12 @@ static PyObject* symm(PyObject *self, PyObject *args, PyObject *kwrds)
     if (ldC < MAX(1,m)) err_ld("ldC");
 
     if (oA < 0) err_nn_int("offsetA");
-    if ((side == 'L' && oA + (m-1)*ldA + m > len(A)) ||
-        (side == 'R' && oA + (n-1)*ldA + n > len(A))) err_buf_len("A");
+    if ((side == 'L' && (int_t)oA + (m-1)*(int_t)ldA + m > len(A)) ||
+        (side == 'R' && (int_t)oA + (n-1)*(int_t)ldA + n > len(A))) err_buf_len("A");
     if (oB < 0) err_nn_int("offsetB");
-    if (oB + (n-1)*ldB + m > len(B)) err_buf_len("B");
+    if ((int_t)oB + (n-1)*(int_t)ldB + m > len(B)) err_buf_len("B");
     if (oC < 0) err_nn_int("offsetC");
-    if (oC + (n-1)*ldC + m > len(C)) err_buf_len("C");
+    if ((int_t)oC + (n-1)*(int_t)ldC + m > len(C)) err_buf_len("C");
 
     if (ao && number_from_pyobject(ao, &a, MAT_ID(A)))
         err_type("alpha");
@@ -2967,12 +2961,12 @@ static PyObject* hemm(PyObject *self, PyObject *args, PyObject *kwrds)
     if (ldC < MAX(1,m)) err_ld("ldC");
 
     if (oA < 0) err_nn_int("offsetA");
-    if ((side == 'L' && oA + (m-1)*ldA + m > len(A)) ||
-        (side == 'R' && oA + (n-1)*ldA + n > len(A))) err_buf_len("A");
+    if ((side == 'L' && (int_t)oA + (m-1)*(int_t)ldA + m > len(A)) ||
+        (side == 'R' && (int_t)oA + (n-1)*(int_t)ldA + n > len(A))) err_buf_len("A");
     if (oB < 0) err_nn_int("offsetB");
-    if (oB + (n-1)*ldB + m > len(B)) err_buf_len("B");
+    if ((int_t)oB + (n-1)*(int_t)ldB + m > len(B)) err_buf_len("B");
     if (oC < 0) err_nn_int("offsetC");
-    if (oC + (n-1)*ldC + m > len(C)) err_buf_len("C");
+    if ((int_t)oC + (n-1)*(int_t)ldC + m > len(C)) err_buf_len("C");
 
     if (ao && number_from_pyobject(ao, &a, MAT_ID(A)))
         err_type("alpha");
@@ -3094,12 +3088,11 @@ static PyObject* syrk(PyObject *self, PyObject *args, PyObject *kwrds)
     if (ldC == 0) ldC = MAX(1,C->nrows);
     if (ldC < MAX(1,n)) err_ld("ldC");
     if (oA < 0) err_nn_int("offsetA");
-    if (k > 0 && ((trans == 'N' && oA + (k-1)*ldA + n > len(A)) ||
-        ((trans == 'T' || trans == 'C') &&
-	oA + (n-1)*ldA + k > len(A))))
+    if (k > 0 && ((trans == 'N' && (int_t)oA + (k-1)*(int_t)ldA + n > len(A)) ||
+        ((trans == 'T' || trans == 'C') && (int_t)oA + (n-1)*(int_t)ldA + k > len(A))))
         err_buf_len("A");
     if (oC < 0) err_nn_int("offsetC");
-    if (oC + (n-1)*ldC + n > len(C)) err_buf_len("C");
+    if ((int_t)oC + (n-1)*(int_t)ldC + n > len(C)) err_buf_len("C");
 
     if (ao && number_from_pyobject(ao, &a, MAT_ID(A)))
         err_type("alpha");
@@ -3218,12 +3211,11 @@ static PyObject* herk(PyObject *self, PyObject *args, PyObject *kwrds)
     if (ldC == 0) ldC = MAX(1,C->nrows);
     if (ldC < MAX(1,n)) err_ld("ldC");
     if (oA < 0) err_nn_int("offsetA");
-    if (k > 0 && ((trans == 'N' && oA + (k-1)*ldA + n > len(A)) ||
-        ((trans == 'T' || trans == 'C') &&
-	oA + (n-1)*ldA + k > len(A))))
+    if (k > 0 && ((trans == 'N' && (int_t)oA + (k-1)*(int_t)ldA + n > len(A)) ||
+        ((trans == 'T' || trans == 'C') && (int_t)oA + (n-1)*(int_t)ldA + k > len(A))))
         err_buf_len("A");
     if (oC < 0) err_nn_int("offsetC");
-    if (oC + (n-1)*ldC + n > len(C)) err_buf_len("C");
+    if ((int_t)oC + (n-1)*(int_t)ldC + n > len(C)) err_buf_len("C");
 
     if (ao && number_from_pyobject(ao, &a, DOUBLE)) err_type("alpha");
     if (bo && number_from_pyobject(bo, &b, DOUBLE)) err_type("beta");
@@ -3366,17 +3358,15 @@ static PyObject* syr2k(PyObject *self, PyObject *args, PyObject *kwrds)
     if (ldC < MAX(1,n)) err_ld("ldC");
 
     if (oA < 0) err_nn_int("offsetA");
-    if (k > 0 && ((trans == 'N' && oA + (k-1)*ldA + n > len(A)) ||
-        ((trans == 'T' || trans == 'C') &&
-	oA + (n-1)*ldA + k > len(A))))
+    if (k > 0 && ((trans == 'N' && (int_t)oA + (k-1)*(int_t)ldA + n > len(A)) ||
+        ((trans == 'T' || trans == 'C') && (int_t)oA + (n-1)*(int_t)ldA + k > len(A))))
         err_buf_len("A");
     if (oB < 0) err_nn_int("offsetB");
-    if (k > 0 && ((trans == 'N' && oB + (k-1)*ldB + n > len(B)) ||
-        ((trans == 'T' || trans == 'C') &&
-	oB + (n-1)*ldB + k > len(B))))
+    if (k > 0 && ((trans == 'N' && (int_t)oB + (k-1)*(int_t)ldB + n > len(B)) ||
+        ((trans == 'T' || trans == 'C') && (int_t)oB + (n-1)*(int_t)ldB + k > len(B))))
         err_buf_len("B");
     if (oC < 0) err_nn_int("offsetC");
-    if (oC + (n-1)*ldC + n > len(C))  err_buf_len("C");
+    if ((int_t)oC + (n-1)*(int_t)ldC + n > len(C))  err_buf_len("C");
 
 
     if (ao && number_from_pyobject(ao, &a, MAT_ID(A)))
@@ -3529,17 +3519,15 @@ static PyObject* her2k(PyObject *self, PyObject *args, PyObject *kwrds)
     if (ldC < MAX(1,n)) err_ld("ldC");
 
     if (oA < 0) err_nn_int("offsetA");
-    if (k > 0 && ((trans == 'N' && oA + (k-1)*ldA + n > len(A)) ||
-        ((trans == 'T' || trans == 'C') &&
-	oA + (n-1)*ldA + k > len(A))))
+    if (k > 0 && ((trans == 'N' && (int_t)oA + (k-1)*(int_t)ldA + n > len(A)) ||
+        ((trans == 'T' || trans == 'C') && (int_t)oA + (n-1)*(int_t)ldA + k > len(A))))
         err_buf_len("A");
     if (oB < 0) err_nn_int("offsetB");
-    if (k > 0 && ((trans == 'N' && oB + (k-1)*ldB + n > len(B)) ||
-        ((trans == 'T' || trans == 'C') &&
-	oB + (n-1)*ldB + k > len(B))))
+    if (k > 0 && ((trans == 'N' && (int_t)oB + (k-1)*(int_t)ldB + n > len(B)) ||
+        ((trans == 'T' || trans == 'C') && (int_t)oB + (n-1)*(int_t)ldB + k > len(B))))
         err_buf_len("B");
     if (oC < 0) err_nn_int("offsetC");
-    if (oC + (n-1)*ldC + n > len(C))  err_buf_len("C");
+    if ((int_t)oC + (n-1)*(int_t)ldC + n > len(C))  err_buf_len("C");
 
 
     if (ao && number_from_pyobject(ao, &a, MAT_ID(A)))
@@ -3677,10 +3665,10 @@ static PyObject* trmm(PyObject *self, PyObject *args, PyObject *kwrds)
     if (ldB == 0) ldB = MAX(1,B->nrows);
     if (ldB < MAX(1, m)) err_ld("ldB");
     if (oA < 0) err_nn_int("offsetA");
-    if ((side == 'L' && oA + (m-1)*ldA + m > len(A)) ||
-        (side == 'R' && oA + (n-1)*ldA + n > len(A))) err_buf_len("A");
+    if ((side == 'L' && (int_t)oA + (m-1)*(int_t)ldA + m > len(A)) ||
+        (side == 'R' && (int_t)oA + (n-1)*(int_t)ldA + n > len(A))) err_buf_len("A");
     if (oB < 0) err_nn_int("offsetB");
-    if (oB + (n-1)*ldB + m > len(B)) err_buf_len("B");
+    if ((int_t)oB + (n-1)*(int_t)ldB + m > len(B)) err_buf_len("B");
 
     if (ao && number_from_pyobject(ao, &a, MAT_ID(A)))
         err_type("alpha");
@@ -3818,10 +3806,10 @@ static PyObject* trsm(PyObject *self, PyObject *args, PyObject *kwrds)
     if (ldB == 0) ldB = MAX(1,B->nrows);
     if (ldB < MAX(1,m)) err_ld("ldB");
     if (oA < 0) err_nn_int("offsetA");
-    if ((side == 'L' && oA + (m-1)*ldA + m > len(A)) ||
-        (side == 'R' && oA + (n-1)*ldA + n > len(A))) err_buf_len("A");
+    if ((side == 'L' && (int_t)oA + (m-1)*(int_t)ldA + m > len(A)) ||
+        (side == 'R' && (int_t)oA + (n-1)*(int_t)ldA + n > len(A))) err_buf_len("A");
     if (oB < 0) err_nn_int("offsetB");
-    if (oB < 0 || oB + (n-1)*ldB + m > len(B)) err_buf_len("B");
+    if (oB < 0 || (int_t)oB + (n-1)*(int_t)ldB + m > len(B)) err_buf_len("B");
 
     if (ao && number_from_pyobject(ao, &a, MAT_ID(A)))
         err_type("alpha");
